@@ -426,7 +426,7 @@ func init() { vxRegister("VX_C18_DialSide", VX_C18_DialSide) }
 // number of admitted live sessions above N. args: serverBack(0 stays down, 1 comes back before the later call)
 func VX_C18_DialSide(args []int) {
 	o := New(LimitConfig{MaxConn: 1})
-	p := erpc.NewPeer(erpc.PeerConfig{RedialTimes: 1}, o)
+	p := erpc.NewPeer(erpc.PeerConfig{RedialTimes: 1, RedialInterval: vxRedialEvery}, o)
 	up := true
 	var conns []*vxConn
 	erpc.VXSetDialHook(func(addr string) (net.Conn, error) {
